@@ -75,6 +75,15 @@ Theorem C11_model_silent_after_delete : forall p modes pre mid r s t ca,
 Proof. exact ob_model_silent_after_delete. Qed.
 Print Assumptions C11_model_silent_after_delete.
 
+(* how the theorems below apply to an accepted history (e.g. the model's, by C11_model_accepted):
+   the acceptor runs through every prefix from its well-formed initial state and on through the rest *)
+Theorem C11_accepted_runs : forall c t1 t2,
+  ac_accepts c (t1 ++ t2) = true ->
+  ac_wf (as_res (ac_init c)) /\
+  exists st1 st2, ac_go c (ac_init c) t1 = Some st1 /\ ac_wf (as_res st1) /\ ac_go c st1 t2 = Some st2.
+Proof. exact ac_accepts_go. Qed.
+Print Assumptions C11_accepted_runs.
+
 (* ---------------------------------------------------------------- no notification after de-registration *)
 
 (* while (r, s, t) is not registered and does not register again, an accepted history sends it
